@@ -425,7 +425,7 @@ func genSubjectHandlerCase(t *rapid.T, family string) caseSpec {
 	}
 
 	c.Kind = rapid.SampledFrom([]string{"equal", "equal", "subject", "value", "payload", "expressions", "shifted-values", "forwarded-header", "forwarded-cookie",
-		"shifted-names-payload"}).Draw(t, "pairKind")
+		"shifted-names-payload", "forwarded-names"}).Draw(t, "pairKind")
 
 	if family == "generic_contextualizer" {
 		// headers and cookies are forwarded independently of each other; the component which differs is always forwarded
@@ -490,6 +490,28 @@ func genSubjectHandlerCase(t *rapid.T, family string) caseSpec {
 
 		c.Detail = c.Kind + " value"
 		c.Kind = "one-component"
+	case "forwarded-names":
+		// the rule overrides which header (cookie) is forwarded; the one it forwards carries the value the other execution
+		// sent in the header (cookie) the catalogue names
+		if family != "generic_contextualizer" {
+			c.Kind, c.Identical = "equal", true
+
+			break
+		}
+
+		pc["forward_headers"], pc["forward_cookies"] = []any{"X-Tenant"}, []any{"region"}
+		c.Forwarded = "both"
+
+		if rapid.Bool().Draw(t, "overrideCookies") {
+			overB = map[string]any{"forward_cookies": []any{"zone"}}
+			hdrB = []vkit.HeaderKV{{Name: "X-Tenant", Value: "t1"}, {Name: "Cookie", Value: "zone=eu"}}
+		} else {
+			overB = map[string]any{"forward_headers": []any{"X-Org"}}
+			hdrB = []vkit.HeaderKV{{Name: "X-Org", Value: "t1"}, {Name: "Cookie", Value: "region=eu"}}
+		}
+
+		c.Kind = "cross-variant"
+		c.Detail = "names of the forwarded headers / cookies overridden"
 	case "shifted-names-payload":
 		// two rule-level options which are neighbours in what the result depends on: a list of header (cookie) names and the
 		// payload, the last name of A continued by the payload of A being the same text as in B
